@@ -134,7 +134,8 @@ func (demuxer *Demuxer) Close() error {
 	}
 
 	demuxer.closed = true
-	demuxer.recvQueue.Signal()
+	// 入列一个 nil 唤醒处理协程；直接 Signal 可能丢失在 closed 检查与 Wait 之间
+	demuxer.recvQueue.Push(nil)
 	return nil
 }
 
